@@ -250,6 +250,8 @@ def main(tier, replay, t0):
            ("pbr.wgsl", stub("echo_then_exit1")), ("bigT500.wgsl", good),
            ("bigT860.wgsl", stub("garbage_exit3")), ("bigT620.wgsl", stub("empty_ok")),
            ("bigT740.wgsl", good)]
+    seq += [("long_members.wgsl", good), ("types_zoo.wgsl", "/nonexistent-dir-for-path"),
+            ("compute_mix.wgsl", good), ("subgroups.wgsl", stub("absent"))]
     seq = [(n, p_) for (n, p_) in seq if n in usable or n.startswith("bigT")]
     hnames = [n for n, _ in seq]
     jp = os.path.join(work, "history.jobs.jsonl")
@@ -261,6 +263,32 @@ def main(tier, replay, t0):
     if os.path.exists(rp):
         os.remove(rp)
     runs.append(("history|sequence|delay0", hnames, jp, rp,
+                 core.env(PATH=good, VERIF_REAL_RUSTFMT=real)))
+    # the same source several times in one process, formatter on: embedded, then two include
+    # paths, then embedded again (a result remembered per source would be the wrong program)
+    vjobs = []
+    for n0 in ("pbr.wgsl", "minimal.wgsl", "unicode.wgsl"):
+        for k, ip in enumerate((None, "shaders/a.wgsl", "other dir/b.wgsl", None)):
+            j = {"id": "%s#v%d" % (n0, k), "source": shaders[n0], "opt": {"en": True},
+                 "canon": True}
+            if ip is not None:
+                j["include_path"] = ip
+            vjobs.append(j)
+    p_, vres = core.run_drive(binp, vjobs, "c19/variants-ref")
+    for r_ in vres:
+        if r_.get("result") == "ok" and r_.get("canon_sha"):
+            ref[r_["id"]] = r_
+            shaders[r_["id"]] = shaders[r_["id"].split("#")[0]]
+    vnames = [j["id"] for j in vjobs if j["id"] in ref]
+    jp = os.path.join(work, "variants.jobs.jsonl")
+    rp = os.path.join(work, "variants.res.jsonl")
+    with open(jp, "w") as f:
+        for j in vjobs:
+            if j["id"] in ref:
+                f.write(json.dumps(dict(j, opt=dict(j["opt"], fmt=True))) + "\n")
+    if os.path.exists(rp):
+        os.remove(rp)
+    runs.append(("real|include_variants|delay0", vnames, jp, rp,
                  core.env(PATH=good, VERIF_REAL_RUSTFMT=real)))
 
     active = []
@@ -337,7 +365,7 @@ def main(tier, replay, t0):
         if len(samples) < 8 and cell.split("|")[0] in ("kill_before_read", "empty_ok", "absent",
                                                        "read_some_then_exit1"):
             samples.append({"cell": cell, "outcome": outcome})
-    expected_cells = len(FAULTS) * 2 * len(delays) + len(delays) + 1 + 4
+    expected_cells = len(FAULTS) * 2 * len(delays) + len(delays) + 1 + 5
     if len(cells) != expected_cells:
         inconclusive.append("only %d of %d cells ran" % (len(cells), expected_cells))
     core.finish("C19", tier, "fault_enumeration", t0, viol, {
